@@ -375,6 +375,9 @@ func (g *gen) progCalls() ([]byte, []byte, []byte) {
 			inSize = uint64(r.Pick(128, 192, 213, 160, 288, 384, 96))
 		}
 		inOff := uint64(r.Intn(40))
+		if r.Chance(1, 4) {
+			inOff = 0
+		}
 		a.pushU(retSize).pushU(retOff).pushU(inSize).pushU(inOff)
 		if kind == 0xf1 || kind == 0xf2 {
 			if r.Chance(1, 3) {
@@ -769,6 +772,7 @@ func main() {
 	if a["mode"] == "search" {
 		hxnode.BootServices("dev")
 		installPrecompileWrappers()
+		installStepHook()
 		searchMain(a)
 		return
 	}
@@ -781,6 +785,7 @@ func main() {
 	limitAddressSpace()
 	hxnode.BootServices("dev")
 	installPrecompileWrappers()
+	installStepHook()
 	r := hx.NewRng(hx.SeedFromEnv())
 	g := &gen{r: r, ops: definedOps()}
 	setConfig(63)
